@@ -4,6 +4,7 @@ import IrefVerif.Lemmas.RelativeTotal
 import IrefVerif.Lemmas.RelativeRoundTrip
 import IrefVerif.Lemmas.WholeRoundTrip
 import IrefVerif.Lemmas.RelativeSameDoc
+import IrefVerif.Lemmas.RelativeRootless
 import IrefVerif.Lemmas.IriBytes
 import IrefVerif.Props.Valid
 
@@ -40,7 +41,7 @@ remainder of `a` (`relative_to_on_class`), and resolving it against `b` gives a 
 from `f12` (`class_outside_f12`).  (iv) **every whole-target fallback** of a target with an
 authority outside `f12` round-trips against every base (`roundtrip_whole_fallback_partial`; taken
 e.g. when only the target has an authority, `relative_to_authority_one_sided`).  PARTIAL: outside that class (relative paths without authority, the root
-seen from its own level, same-scheme pairs of rootless paths) the round trip is judged on the implementation by the oracle on every
+seen from its own level, rootless pairs through the shortcut or with an empty target path) the round trip is judged on the implementation by the oracle on every
 generated pair: a failing pair outside `f12`, or any difference between model and implementation,
 is a violation.
 -/
@@ -170,6 +171,34 @@ theorem iri_roundtrip_on_class_noauth_partial (a b : Text) (ha8 : ∀ c ∈ a, c
     ∃ r t, Ref.relative_to a b = some r ∧ Ref.resolve r b = some t ∧ key t = key a :=
   roundtrip_on_class_noauth_partial Lemmas.iriGB Lemmas.iriGB_ok Lemmas.iriGB_okPath Lemmas.iriGB_okAuth Lemmas.iriGB_okWE
     a b (Valid.iri_octets a ha8 ha) (Valid.iri_octets b hb8 hb) hsch haa hab hpa hpb hne hha hhb hcls hnsp
+
+/-- **the round trip between two rootless paths** (`urn:a/b/c` relative to `urn:a/d/e`): same
+scheme, no authority, both paths relative, neither normalised list beginning with an unresolved
+`..` (those take the whole-target fallback) nor with an empty segment, the shortcut not taken -/
+theorem roundtrip_on_class_rootless_partial (G : Grammar) (ok : Lemmas.Grammar.Ok G) (okp : Lemmas.Grammar.OkPath G)
+    (oka : Lemmas.Grammar.OkAuth G) (we : Lemmas.Grammar.OkWE G) (a b : Text)
+    (ha : RE.Matches G.full a) (hb : RE.Matches G.full b)
+    (hsch : (split a).scheme = (split b).scheme)
+    (haa : (split a).authority = none) (hab : (split b).authority = none)
+    (hpa : isAbs (split a).path = false) (hpb : isAbs (split b).path = false)
+    (hhA : ((nsegs (split a).path).head? == some [cDot, cDot]) = false)
+    (hhB : ((nsegs (Path.parent_or_empty (split b).path)).head? == some [cDot, cDot]) = false)
+    (hne : nsegs (split a).path ≠ [])
+    (hcls : (!(Lemmas.remainder a b).2.2 && (Lemmas.remainder a b).1.head? == some []) = false)
+    (hhd : (nsegs (split a).path).head? ≠ some [] ∧
+      (nsegs (Path.parent_or_empty (split b).path)).head? ≠ some [])
+    (hnsp : Lemmas.sdCond a b = false) :
+    ∃ r t, Ref.relative_to a b = some r ∧ Ref.resolve r b = some t ∧ key t = key a :=
+  Lemmas.relative_roundtrip_rootless G ok okp oka we a b ha hb hsch haa hab hpa hpb hhA hhB hne hcls hhd hnsp
+
+/-- non-vacuity: `s:a/b/c` relative to `s:a/d/e` is `../b/c`, which resolves back -/
+example :
+    let a : Text := [0x73,0x3A,0x61,0x2F,0x62,0x2F,0x63]
+    let b : Text := [0x73,0x3A,0x61,0x2F,0x64,0x2F,0x65]
+    (split a).authority = none ∧ isAbs (split a).path = false ∧ isAbs (split b).path = false ∧
+    Lemmas.remainder a b = ([[0x62], [0x63]], [[0x64]], true) ∧ Lemmas.sdCond a b = false ∧
+    Ref.relative_to a b = some [0x2E,0x2E,0x2F,0x62,0x2F,0x63] ∧
+    Ref.resolve [0x2E,0x2E,0x2F,0x62,0x2F,0x63] b = some a := by decide
 
 /-- **the round trip when the target is the root** and the base lies below it (`https://crates.io/`
 relative to `https://crates.io/crates/iref` is `..`): the reference is `..` repeated -/
